@@ -16,6 +16,7 @@ import SymfcModel.Model.Api
 import SymfcModel.Model.Eig
 import SymfcModel.Model.SgPerm
 import SymfcModel.Model.SgPermFull
+import SymfcModel.Model.Dist
 import SymfcModel.Model.Relabel
 import SymfcModel.Gen.PermTables
 import SymfcModel.Gen.Cutoff
@@ -391,6 +392,19 @@ def handle (j : Json) : Except String Json := do
     pure (match sgPermutations S ps rots ts with
       | some out => natMatJ out
       | none => Json.null)
+  | "dist2" =>
+    -- `_calc_distances` after the Niggli reduction (Model/Dist.lean): squared minimum-image distances, units 1/S²
+    let S ← jInt j "S"
+    let G ← (← (← j.getObjVal? "G").getArr?).toList.mapM jIntList
+    let ps ← (← (← j.getObjVal? "positions").getArr?).toList.mapM jIntList
+    pure (Json.arr ((dist2Matrix S G ps).map intsJ).toArray)
+  | "dist_window" =>
+    -- the decidable side conditions of Lemmas/Dist.lean (5³ / 7³ window, no coordinate on the rint boundary)
+    let S ← jInt j "S"
+    let G ← (← (← j.getObjVal? "G").getArr?).toList.mapM jIntList
+    let ps ← (← (← j.getObjVal? "positions").getArr?).toList.mapM jIntList
+    pure (Json.mkObj [("window5", Json.bool (WindowOK S G ps)), ("window7", Json.bool (WindowOK3 S G ps)),
+                      ("no_boundary", Json.bool (noBoundary S ps))])
   | "round_half_even" =>
     let t ← jInt j "t"; let den ← jInt j "den"
     pure (Json.num (JsonNumber.fromInt (roundHalfEven t den)))
